@@ -55,7 +55,7 @@ func cmdSelftest(args []string) int {
 		}
 		repo := filepath.Join(work, "repo")
 		out := filepath.Join(work, "out")
-		cp := exec.Command("bash", "-c", fmt.Sprintf("mkdir -p %s && cd /repo && git ls-files -z | xargs -0 cp --parents -t %s && cd %s && patch -p1 -s < %s", repo, repo, repo, filepath.Join(dir, pn)))
+		cp := exec.Command("bash", "-c", fmt.Sprintf("mkdir -p %s && cd %s && git ls-files -z | xargs -0 cp --parents -t %s && cd %s && patch -p1 -s < %s", repo, envOr("PVERIF_SELFTEST_SRC", "/repo"), repo, repo, filepath.Join(dir, pn)))
 		if o, err := cp.CombinedOutput(); err != nil {
 			fmt.Printf("SELFTEST %-45s ERROR applying patch: %v %s\n", pn, err, truncate(string(o), 300))
 			bad++
